@@ -28,6 +28,7 @@ DEFAULT_KNOBS: Dict[str, Any] = {
     "p_save_delay": 0.2,
     "p_ack_delay": 0.3,
     "p_hook_raise": 0.0,
+    "p_ack_fail": 0.0,
     "p_cancel_fault": 0.0,      # an awaited hook / ack / set_result is cancelled from outside (CancelledError in the callback task)
     "p_timeout": 0.1,
     "p_sync": 0.15,
@@ -322,6 +323,8 @@ def gen_worker_script(rs: int, knobs: Optional[dict] = None) -> dict:
                 m["save"] = [{"delay_us": duration(r, {"tiny": 2, "short": 3, "medium": 1})}]
         if r.random() < kn["p_ack_delay"]:
             m["ack"] = {"delay_us": duration(r, {"tiny": 3, "short": 2, "medium": 1}), "async": r.random() < 0.5}
+        if faults and kn.get("p_ack_fail") and r.random() < kn["p_ack_fail"]:
+            m["ack"] = {"fail": True, "async": r.random() < 0.5}      # the broker's ack callable raises (connection lost)
         if cfg["ackable"] == "mixed":
             m["ackable"] = r.random() < 0.6
         if not ts.get("sync") and r.random() < kn["p_timeout"]:
